@@ -22,8 +22,15 @@
   (c) LIFTED — `_ite` / `BDD.ite` / `BDD.var` that run into `full` half-way.
   (d) NON-VACUITY — three variables, `max_nodes = 7`: the 5th node creation is refused in the
       middle of an `ite` that creates three nodes.
+  (e) WHAT IS NOT TRUE (finding F22) — `BDD.swap` reaches `find_or_add` in the middle of its
+      rewrite of two levels; a refusal there leaves a manager that violates `Inv`
+      (`C17_swap_full_refuted`, on a reachable manager).  Hence no statement (b)/(c) for `swap`,
+      `reorder`, sifting, nor for a decorated call whose reordering request is served while the
+      manager is at capacity: `C17_ite_full_dyn` is relative to `siftContract`, the contract of
+      the CAPACITY-FREE `reorder` (the model of `reorder` inside `iteCap` has no capacity).
 -/
 import DDProofs.CapacityIte
+import DDProofs.CapacitySwap
 import DDProofs.Reach
 import DDProps.C01
 open Std
@@ -250,6 +257,21 @@ theorem C17_full_then_full (cap : Nat) (ext : Nat → Nat) (m : Mgr) (hD : DynIn
     (g0 u0 v0 : Int) (g u v : Int) :
     DynTotal ext (iteCap cap g0 u0 v0 m).2 (iteCap cap g u v (iteCap cap g0 u0 v0 m).2) :=
   iteCap_total_dyn cap ext _ (iteCap_total_dyn cap ext m hD g0 u0 v0).2.inv g u v
+
+/-! ## (e) what is not true: `swap` at capacity (finding F22) -/
+
+/-- the capacity layer of `swap` is the model of `swap` when nothing is refused … -/
+theorem C17_swap_layer_is_model : swapG findOrAdd = swap := swapG_findOrAdd
+
+/-- … and from a GOOD state (reachable by declare / var / ite / incref / collect_garbage) `swap`
+with `max_nodes = 7` raises `RuntimeError` leaving a manager that violates the invariant, while
+the capacity-free `swap` of the same state succeeds: C17 is FALSE for `swap` at capacity -/
+theorem C17_swap_full_refuted :
+    GoodState swapM swapSt.ext ∧
+    raisedErr (swapCap 7 (.level 0) (.level 1) false swapM).1 = some .runtime ∧
+    ¬ Inv (swapCap 7 (.level 0) (.level 1) false swapM).2 ∧
+    raisedErr (swap (.level 0) (.level 1) false swapM).1 = none :=
+  ⟨swapM_good, swapCap_breaks_inv⟩
 
 /-! ## (d) non-vacuity
 
